@@ -12,6 +12,280 @@ broadcast use vstd::std_specs::hash::group_hash_axioms;
 //@include prelude/agent.rs
 //@include inc/timers_decl.rs
 
+
+// ---- HashMap<TransactionId, StunTransaction>: vstd's model needs the key type to hash/compare structurally
+// (derived Hash/Eq on [u8; 12]); trusted
+pub broadcast proof fn axiom_txid_key_model()
+    ensures #[trigger] obeys_key_model::<TransactionId>(),
+{ admit(); }
+pub assume_specification<'a, K, V, S, A, Q> [std::collections::HashMap::<K, V, S, A>::get_mut]
+  (m: &'a mut std::collections::HashMap<K, V, S, A>, k: &Q) -> (r: Option<&'a mut V>)
+  where A: std::alloc::Allocator, K: Eq + std::hash::Hash + std::borrow::Borrow<Q>,
+        Q: std::marker::MetaSized + std::hash::Hash + Eq + ?Sized, S: std::hash::BuildHasher,
+  ensures obeys_key_model::<K>() && builds_valid_hashers::<S>() ==> match r {
+    Some(v) => contains_borrowed_key(old(m)@, k) && maps_borrowed_key_to_value(old(m)@, k, *v)
+               && final(m)@.dom() == old(m)@.dom() && maps_borrowed_key_to_value(final(m)@, k, *final(v))
+               && (forall|k2: K| #![auto] old(m)@.contains_key(k2) && !maps_borrowed_key_to_value(old(m)@, k, old(m)@[k2]) ==> final(m)@[k2] == old(m)@[k2]),
+    None => final(m)@ == old(m)@ && !contains_borrowed_key(old(m)@, k) };
+impl core::hash::Hash for TransactionId {
+    #[verifier::external_body]
+    fn hash<H: core::hash::Hasher>(&self, state: &mut H) { unimplemented!() }
+}
+
+// ---------------------------------------------------------------- events.rs
+//@item! stun_agent :: mod events > enum StunTransactionError
+//@item! stun_agent :: mod events > enum StunClientEvent
+//@item! stun_agent :: mod events > struct TransactionEventHandler
+//@item! stun_agent :: enum StunAgentError
+//@item! stun_agent :: mod integrity > enum IntegrityError
+
+// The event batch of one client call. In the crate it is `TransactionEvents<'a>`, which borrows the handler and
+// commits in `Drop`. Rewrite R11 makes that explicit: `handler.init()` becomes a local batch and the extracted
+// `drop` body (verified below as `vx_commit`) is called where the batch goes out of scope.
+pub struct VxEvents { pub events: Vec<StunClientEvent> }
+impl VxEvents {
+    pub fn vx_init() -> (r: VxEvents) ensures r.events@ == Seq::<StunClientEvent>::empty() { VxEvents { events: Vec::new() } }
+    pub fn push(&mut self, event: StunClientEvent)
+        ensures final(self).events@ == old(self).events@.push(event),
+    { self.events.push(event); }
+}
+impl TransactionEventHandler {
+    // body = `impl Drop for TransactionEvents<'_>::drop` with self.handler := self, self.events := batch.events
+//@item stun_agent :: mod events > impl Drop for TransactionEvents<'_> > fn drop
+//@tags C05 C12 C17 C11
+//@sig
+pub fn vx_commit(&mut self, batch: VxEvents)
+//@sub "self.handler.events" => "VX_HANDLER_EVENTS" all
+//@sub "self.events" => "vx_batch.events" all
+//@sub "VX_HANDLER_EVENTS" => "self.events" all
+//@head
+    let mut vx_batch = batch;
+//@spec
+    ensures final(self).events@ == (if batch.events@.len() == 0 { old(self).events@ } else { batch.events@ }),
+//@end
+}
+
+
+// ---------------------------------------------------------------- collaborators, abstract in this unit
+// attribute set handed in by the application and completed by the mechanisms (unit attrset)
+#[verifier::external_body]
+pub struct StunAttributes { _p: () }
+#[verifier::external_body]
+pub struct MessageEncoder { _p: () }
+#[verifier::external_body]
+pub struct MessageDecoder { _p: () }
+impl Default for MessageEncoder { #[verifier::external_body] fn default() -> Self { unimplemented!() } }
+impl Default for MessageDecoder { #[verifier::external_body] fn default() -> Self { unimplemented!() } }
+// wire image of a message produced by the encoder / accepted by the decoder (units codec, attrset)
+pub uninterp spec fn wire_of(msg: StunMessage) -> Seq<u8>;
+pub uninterp spec fn encodes_ok(msg: StunMessage, buflen: int) -> bool;
+pub uninterp spec fn decodes_to(bytes: Seq<u8>, msg: StunMessage) -> bool;
+impl MessageEncoder {
+    #[verifier::external_body]
+    pub fn encode(&self, buffer: &mut [u8], msg: &StunMessage) -> (r: Result<usize, StunEncodeError>)
+        ensures final(buffer)@.len() == old(buffer)@.len(),
+            r is Ok <==> encodes_ok(*msg, old(buffer)@.len() as int),
+            r is Ok ==> r->Ok_0 <= old(buffer)@.len() && final(buffer)@.subrange(0, r->Ok_0 as int) == wire_of(*msg),
+    { unimplemented!() }
+}
+impl MessageDecoder {
+    #[verifier::external_body]
+    pub fn decode(&self, buffer: &[u8]) -> (r: Result<(StunMessage, usize), StunDecodeError>)
+        ensures r is Ok ==> decodes_to(buffer@, r->Ok_0.0),
+    { unimplemented!() }
+}
+// message.rs::create_stun_message: `None` asks for a fresh random transaction id
+#[verifier::external_body]
+pub fn create_stun_message(method: MessageMethod, class: MessageClass, transaction_id: Option<TransactionId>,
+    attributes: StunAttributes) -> (r: StunMessage)
+    ensures r.smethod() == method, r.sclass() == class, transaction_id is Some ==> r.sid() == transaction_id->Some_0,
+{ unimplemented!() }
+// fingerprint.rs
+pub uninterp spec fn fp_verdict(raw: Seq<u8>, msg: StunMessage) -> Option<bool>;   // None: no FINGERPRINT present
+#[verifier::external_body]
+pub fn validate_fingerprint(raw_buffer: &[u8], msg: &StunMessage) -> (r: Result<bool, StunAgentError>)
+    ensures match fp_verdict(raw_buffer@, *msg) {
+        Some(b) => r == Ok::<bool, StunAgentError>(b),
+        None => r is Err && r->Err_0 is StunCheckFailed,
+    },
+{ unimplemented!() }
+#[verifier::external_body]
+pub fn add_fingerprint_attribute(attributes: &mut StunAttributes) { unimplemented!() }
+
+// credential mechanism (units cred): abstract state; `violated` is the documented marker set of C17
+#[verifier::external_body]
+pub struct MechState { _p: () }
+#[verifier::external_body]
+pub struct CredentialMechanismClient { _p: () }
+impl CredentialMechanismClient {
+    pub uninterp spec fn st(&self) -> MechState;
+    pub uninterp spec fn violated(&self) -> Set<TransactionId>;
+    #[verifier::external_body]
+    pub fn prepare_request(&mut self, attributes: &mut StunAttributes) -> (r: Result<(), StunAgentError>)
+        ensures final(self).violated() == old(self).violated(),
+    { unimplemented!() }
+    #[verifier::external_body]
+    pub fn prepare_indication(&mut self, attributes: &mut StunAttributes) -> (r: Result<(), StunAgentError>)
+        ensures final(self).violated() == old(self).violated(),
+    { unimplemented!() }
+    #[verifier::external_body]
+    pub fn recv_message(&mut self, raw_data: &[u8], message: &StunMessage) -> (r: Result<(), IntegrityError>)
+        ensures
+            // a message that is to be ignored changes nothing but, for a response on unreliable transport, the marker
+            (r is Err && r->Err_0 is Discarded) ==> final(self).st() == old(self).st()
+                && (final(self).violated() == old(self).violated()
+                    || (message.sclass() != MessageClass::Indication
+                        && final(self).violated() == old(self).violated().insert(message.sid()))),
+    { unimplemented!() }
+    #[verifier::external_body]
+    pub fn signal_protection_violated_on_timeout(&mut self, transaction_id: &TransactionId) -> (r: bool)
+        ensures r == old(self).violated().contains(*transaction_id),
+            final(self).violated() == old(self).violated().remove(*transaction_id),
+            final(self).st() == old(self).st(),
+    { unimplemented!() }
+}
+
+// ---------------------------------------------------------------- client.rs
+pub open spec fn sat_sub(a: int, b: int) -> int { if a >= b { a - b } else { 0 } }
+// `h1` is `h0` after RttCalcuator::update(r) (the contract proved in unit timers, restated as a relation)
+pub open spec fn rtt_updated(h0: RttCalcuator, h1: RttCalcuator, r: Duration) -> bool {
+    &&& h1.granularity == h0.granularity && h1.configured_rto == h0.configured_rto
+    &&& (h0.srtt.ns@ == 0 ==> {
+            let f = rfc6298_first(r.ns@ as int, h0.granularity.ns@ as int);
+            h1.srtt.ns@ == f.0 && h1.rttvar.ns@ == f.1 && h1.rto.ns@ == f.2
+        })
+    &&& (h0.srtt.ns@ != 0 ==> {
+            let var = dur_mul_f32(h0.rttvar, vxs_f32_1_0_sub_BETA()).ns@
+                + dur_mul_f32(dur(if h0.srtt.ns@ >= r.ns@ { h0.srtt.ns@ - r.ns@ } else { r.ns@ - h0.srtt.ns@ }), vxs_f32_BETA()).ns@;
+            let srtt = dur_mul_f32(h0.srtt, vxs_f32_1_0_sub_ALPHA()).ns@ + dur_mul_f32(r, vxs_f32_ALPHA()).ns@;
+            let kvar = dur_mul_f32(dur(var as int), vxs_f32_K_as_f32());
+            &&& h1.rttvar.ns@ == var
+            &&& h1.srtt.ns@ == srtt
+            &&& h1.rto.ns@ == srtt + (if kvar.ns@ >= h0.granularity.ns@ { kvar.ns@ } else { h0.granularity.ns@ })
+        })
+}
+//@item! stun_agent :: mod client > enum StunClientMessageClass
+//@item! stun_agent :: mod client > struct StunTransaction
+//@item! stun_agent :: mod client > struct RttHandler
+//@item! stun_agent :: mod client > enum StunRttCalcuator
+//@item! stun_agent :: mod client > struct StunClient
+
+//@item stun_agent :: mod client > fn process_integrity_error
+//@tags C05 C07 C08 C17
+//@spec
+    ensures match error {
+        IntegrityError::ProtectionViolated => r == Ok::<Option<StunClientEvent>, StunAgentError>(Some(StunClientEvent::TransactionFailed((*transaction_id, StunTransactionError::ProtectionViolated)))),
+        IntegrityError::Retry => r == Ok::<Option<StunClientEvent>, StunAgentError>(Some(StunClientEvent::Retry(*transaction_id))),
+        IntegrityError::NotRetryable => r == Ok::<Option<StunClientEvent>, StunAgentError>(Some(StunClientEvent::TransactionFailed((*transaction_id, StunTransactionError::DoNotRetry)))),
+        IntegrityError::Discarded => r is Err && r->Err_0 is Discarded,
+    },
+//@end
+
+
+impl StunRttCalcuator {
+    pub open spec fn wf(&self) -> bool {
+        match self {
+            StunRttCalcuator::Reliable(t) => true,
+            StunRttCalcuator::Unreliable(h) => h.rc <= 31,
+        }
+    }
+}
+impl StunClient {
+    // the timer entry that belongs to an outstanding request: it carries the deadline of the interval in progress
+    pub open spec fn entry(&self, id: TransactionId) -> TimeoutItem {
+        TimeoutItem { instant: self.transactions@[id].rtos.latest->Some_0, timeout: self.transactions@[id].rtos.last_rto, transaction_id: id }
+    }
+    pub open spec fn tr_ok(&self, id: TransactionId) -> bool {
+        self.transactions@[id].rtos.wf() && self.transactions@[id].rtos.latest is Some
+            && self.timeouts.ms().count(self.entry(id)) > 0
+    }
+    pub open spec fn timers_ok(&self) -> bool {
+        &&& forall|x: TimeoutItem| #[trigger] self.timeouts.ms().count(x) > 0 ==>
+                self.transactions@.contains_key(x.transaction_id) && self.timeouts.ms().count(x) == 1
+                && x == self.entry(x.transaction_id)
+    }
+    // representation invariant: one timer per outstanding request and none for anything else; each timer is the
+    // deadline its request's schedule is waiting for; the table respects the configured limit
+    pub open spec fn wf(&self) -> bool {
+        &&& self.timeouts.wf()
+        &&& self.rtt.wf()
+        &&& self.transactions@.dom().finite()
+        &&& self.transactions@.len() <= self.max_transactions
+        &&& self.timers_ok()
+        &&& forall|id: TransactionId| #[trigger] self.transactions@.contains_key(id) ==> self.tr_ok(id)
+    }
+//@item stun_agent :: mod client > impl StunClient > fn transaction_finished
+//@tags C05 C12 C15 C11
+//@head
+    broadcast use axiom_txid_key_model;
+    let ghost ms0 = self.timeouts.ms();
+//@tail
+    proof {
+        assert(self.timeouts.wf());
+        assert(self.rtt.wf());
+        assert(self.transactions@.dom().finite());
+        assert(self.transactions@.len() <= self.max_transactions);
+        assert(self.timers_ok());
+        assert(forall|id: TransactionId| #[trigger] self.transactions@.contains_key(id) ==> self.tr_ok(id));
+    }
+//@spec
+    requires old(self).wf(),
+    ensures final(self).wf(),
+        final(self).transactions@ == old(self).transactions@.remove(*transaction_id),
+        final(self).max_transactions == old(self).max_transactions,
+        final(self).mechanism == old(self).mechanism,
+        final(self).transaction_events == old(self).transaction_events,
+        final(self).use_fingerprint == old(self).use_fingerprint,
+        forall|x: TimeoutItem| #[trigger] final(self).timeouts.ms().count(x)
+            == (if x.transaction_id != *transaction_id { old(self).timeouts.ms().count(x) } else { 0 }),
+        // Karn's rule and RFC 6298 feeding: a sample is taken iff the request was never retransmitted
+        match (old(self).rtt, final(self).rtt) {
+            (StunRttCalcuator::Unreliable(h0), StunRttCalcuator::Unreliable(h1)) =>
+                h1.rm == h0.rm && h1.rc == h0.rc && h1.last_request == h0.last_request
+                && (if old(self).transactions@.contains_key(*transaction_id) && old(self).transactions@[*transaction_id].instant is Some {
+                        rtt_updated(h0.rtt, h1.rtt, dur(sat_sub(instant.ns@, old(self).transactions@[*transaction_id].instant->Some_0.ns@)))
+                    } else { h1.rtt == h0.rtt }),
+            (a, b) => a == b,
+        },
+//@end
+//@item stun_agent :: mod client > impl StunClient > fn set_timeout
+//@tags C06 C15 C11 C12
+//@head
+    let ghost rtt0 = self.rtt;
+//@spec
+    requires old(self).wf(), !old(self).transactions@.contains_key(transaction_id),
+    ensures
+        final(self).transactions@ == old(self).transactions@,
+        final(self).max_transactions == old(self).max_transactions,
+        final(self).mechanism == old(self).mechanism,
+        final(self).transaction_events == old(self).transaction_events,
+        final(self).use_fingerprint == old(self).use_fingerprint,
+        final(self).rtt.wf(), final(self).timeouts.wf(),
+        // C15: the estimate goes stale after more than 600 s between consecutive requests; the new request's
+        // first interval is the current estimate (configured timeout on reliable transport)
+        match (old(self).rtt, final(self).rtt) {
+            (StunRttCalcuator::Unreliable(h0), StunRttCalcuator::Unreliable(h1)) => {
+                let stale = h0.last_request is Some && sat_sub(instant.ns@, h0.last_request->Some_0.ns@) > 600_000_000_000;
+                &&& h1.rm == h0.rm && h1.rc == h0.rc && h1.last_request == Some(instant)
+                &&& (stale ==> h1.rtt.rto == h0.rtt.configured_rto && h1.rtt.srtt.ns@ == 0 && h1.rtt.rttvar.ns@ == 0
+                        && h1.rtt.configured_rto == h0.rtt.configured_rto && h1.rtt.granularity == h0.rtt.granularity)
+                &&& (!stale ==> h1.rtt == h0.rtt)
+                &&& (r is Ok ==> r->Ok_0.rtt() == h1.rtt.rto.ns@ && r->Ok_0.rm() == h0.rm && r->Ok_0.rc() == h0.rc)
+            },
+            (StunRttCalcuator::Reliable(t0), StunRttCalcuator::Reliable(t1)) =>
+                t1 == t0 && (r is Ok ==> r->Ok_0.rtt() == t0.ns@ && r->Ok_0.rm() == 1 && r->Ok_0.rc() == 1),
+            _ => false,
+        },
+        r is Ok ==> {
+            let mgr = r->Ok_0;
+            &&& mgr.wf() && mgr.latest == Some(instant) && mgr.j() == 1
+            &&& mgr.last_rto.ns@ == ivl(mgr.rtt(), mgr.rm(), mgr.rc(), 0)
+            &&& final(self).timeouts.ms() == old(self).timeouts.ms().insert(
+                    TimeoutItem { instant, timeout: mgr.last_rto, transaction_id })
+        },
+        r is Err ==> final(self).timeouts == old(self).timeouts,
+//@end
+}
 proof fn vx_sentinel() ensures false {}
 } // verus!
 fn main() {}
